@@ -25,7 +25,7 @@ ROTSTEPS = [
 M_DELTAS = (1.0, 2.0, 3.0, 5.0, 2.5, 100.0, 2.00001, 0.99999)
 A_DELTAS = (math.pi / 8, math.pi / 4, math.pi / 2, math.pi, 0.5, 1.0, 3.0,
             math.pi / 4 + 1e-5, math.pi / 2 - 1e-5)
-TOLS = (0.0, 0.1, 0.5)
+TOLS = (0.0, 0.1, 0.5, 1.0, 1.5)
 
 
 _BUFS = {}
@@ -317,7 +317,7 @@ def shard_path(arg):
 
 F_STEPS = (0.0, 0.25, 0.5, 1.0)
 F_DELTAS = (0.5, 0.75, 2.0)
-F_TOLS = (0.0, 0.2, 0.5)
+F_TOLS = (0.0, 0.2, 0.5, 1.0, 1.25)
 
 
 def shard_path_frac(arg):
@@ -405,7 +405,7 @@ def run(ctx):
         "metres: all step sequences of 2..%d poses with step lengths "
         "{0,1,2,3} (axis-aligned, exact) x delta %s x {consecutive, all "
         "pairs x rel_tol %s}, and a second grid with steps {0,.25,.5,1} x "
-        "delta {.5,.75,2} x rel_tol {0,.2,.5}; angles: all sequences of 2..%d poses over "
+        "delta {.5,.75,2} x rel_tol {0,.2,.5,1,1.25}; angles: all sequences of 2..%d poses over "
         "rotation steps {0,pi/8,pi/4,pi/2,pi about z, pi/2 about x} x delta "
         "%s x {rad,deg} x modes; frames: N 2..12 x delta 1..N+1 x modes. "
         "non-trivial = at least one pair realises the delta" %
